@@ -68,6 +68,7 @@ theorem format_parse_wf : ∀ a, WellFormed a → parse (format a) = some a :=
 
 example : parse (format ⟨lit "c\n", [⟨lit "a b", lit "x\n"⟩, ⟨lit "b", []⟩]⟩)
     = some ⟨lit "c\n", [⟨lit "a b", lit "x\n"⟩, ⟨lit "b", []⟩]⟩ := by decide +kernel
+example : refParse (lit "x\n-- a --\ny") = ⟨lit "x\n", [⟨lit "a", lit "y\n"⟩]⟩ := by decide +kernel
 
 /-- Re-parse stability: `Parse (Format (Parse d)) = Parse d` (uses `Gen.Txtar.crAtEOF`: a final
 `"-- a --\r"` must be a marker line, because `fixNL` turns it into a CRLF marker line). -/
@@ -85,7 +86,6 @@ theorem parse_agrees_ref : ∀ d, CR ∉ d → parse d = some (refParse d) :=
   fun _ h => parse_eq_ref h
 
 example : CR ∉ lit "x\n-- a --\ny" := by decide +kernel
-example : refParse (lit "x\n-- a --\ny") = ⟨lit "x\n", [⟨lit "a", lit "y\n"⟩]⟩ := by decide +kernel
 
 /-- A marker line ending in CRLF is recognised exactly like the same line ending in LF: the
 result of `isMarker` on `body ++ "\r\n"` is that on `body ++ "\n"`.  (`body` is the line
